@@ -118,14 +118,16 @@ const (
 // apply is the specification: what the property states, operation by operation.
 func (m *mstate) apply(o op) (*mstate, int) {
 	n := m.clone()
-	_, aExists := m.Defs[o.A]
+	// the definitions the name arguments ADDRESS (world.go): the property speaks about those, however the name is spelled
+	A := addr(o.A)
+	_, aExists := m.Defs[A]
 	switch o.K {
 	case "create":
 		// "Creating ... a DAG never overwrites a DAG that already exists under the target name"
 		if aExists {
 			return n, refuse
 		}
-		n.Defs[o.A] = "tmpl"
+		n.Defs[A] = "tmpl"
 		return n, accept
 	case "save":
 		if !aExists {
@@ -135,14 +137,15 @@ func (m *mstate) apply(o op) (*mstate, int) {
 		if !isValid(o.B) {
 			return n, refuse
 		}
-		n.Defs[o.A] = o.B
+		n.Defs[A] = o.B
 		return n, accept
 	case "rename":
-		_, bExists := m.Defs[o.B]
+		B := addr(o.B)
+		_, bExists := m.Defs[B]
 		if !aExists {
 			return n, either
 		}
-		if o.A == o.B {
+		if A == B {
 			return n, either // renaming onto itself: nothing may change
 		}
 		// "... or renaming a DAG never overwrites a DAG that already exists under the target name"
@@ -150,37 +153,37 @@ func (m *mstate) apply(o op) (*mstate, int) {
 			return n, refuse
 		}
 		// "Renaming keeps the definition and makes all of its history available under the new name"
-		n.Defs[o.B] = m.Defs[o.A]
-		delete(n.Defs, o.A)
-		if r := m.Runs[o.A]; len(r) > 0 {
-			n.Runs[o.B] = append([]string(nil), r...)
+		n.Defs[B] = m.Defs[A]
+		delete(n.Defs, A)
+		if r := m.Runs[A]; len(r) > 0 {
+			n.Runs[B] = append([]string(nil), r...)
 		}
-		delete(n.Runs, o.A)
+		delete(n.Runs, A)
 		return n, accept
 	case "delete":
 		if !aExists {
 			return n, either
 		}
 		// "deleting removes the definition and its history and nothing belonging to any other DAG"
-		delete(n.Defs, o.A)
-		delete(n.Runs, o.A)
+		delete(n.Defs, A)
+		delete(n.Runs, A)
 		return n, accept
 	case "list":
 		return n, accept
 	case "record":
 		n.NRec++
-		n.Runs[o.A] = append(n.Runs[o.A], reqID(n.NRec))
+		n.Runs[A] = append(n.Runs[A], reqID(n.NRec))
 		return n, accept
 	}
 	panic("unknown op " + o.K)
 }
 
 func (m *mstate) nontrivial(o op) bool {
-	if _, ok := m.Defs[o.A]; ok {
+	if _, ok := m.Defs[addr(o.A)]; ok {
 		return true
 	}
 	if o.K == "rename" {
-		_, ok := m.Defs[o.B]
+		_, ok := m.Defs[addr(o.B)]
 		return ok
 	}
 	return o.K == "list" && len(m.Defs) > 0
@@ -189,17 +192,35 @@ func (m *mstate) nontrivial(o op) bool {
 // ---- observation vector -------------------------------------------------------
 
 type nobs struct {
-	File  string   `json:"file"`  // text id / hash of dags/<name>.yaml, or "absent"
+	File  string   `json:"file"`  // text id / hash of the definition file, or "absent"
 	Spec  string   `json:"spec"`  // the same for what GetDAGSpec returns, "absent" on error
 	Hist  []string `json:"hist"`  // request ids GetRecentHistory lists under this name (sorted)
 	Found []string `json:"found"` // request ids of the universe GetStatusByRequestID finds under this name (sorted)
 }
 
+// rback: what reading a definition back under one SPELLING of its name returns (spelling search only).
+type rback struct {
+	Spec    string `json:"spec"`    // client.GetDAGSpec(spelling): text id / hash, or "error"
+	DetCode int    `json:"detCode"` // GET /dags/<spelling>?tab=spec through the API handler
+	DetDef  string `json:"detDef"`  // its Definition (text id / hash)
+	DetLoc  string `json:"detLoc"`  // the Location of the DAG the details were loaded from ("" when it could not be loaded)
+}
+
 type obs struct {
-	Names map[string]nobs `json:"names"`
-	List  []string        `json:"list"`     // names GetAllStatus lists (sorted)
-	Errs  []string        `json:"listErrs"` // its error list
-	Extra []string        `json:"extra"`    // files in the DAGs directory that are not <one of the names>.yaml
+	Names map[string]nobs   `json:"names"`
+	Reads map[string]rback  `json:"reads,omitempty"`
+	List  []string          `json:"list"`     // names GetAllStatus lists (sorted)
+	Errs  []string          `json:"listErrs"` // its error list
+	Extra []string          `json:"extra"`    // files in the DAGs directory (spelling search: and below the working directory) that are not the file of a definition of the world
+	Locs  map[string]string `json:"-"`        // absolute file of every definition of the world (for the details read-back)
+}
+
+func listName(k *skey) string {
+	b := k.Rel
+	if i := strings.LastIndex(b, "/"); i >= 0 {
+		b = b[i+1:]
+	}
+	return strings.TrimSuffix(b, ".yaml")
 }
 
 func expected(m *mstate) obs {
@@ -208,7 +229,9 @@ func expected(m *mstate) obs {
 		no := nobs{File: "absent", Spec: "absent"}
 		if t, ok := m.Defs[n]; ok {
 			no.File, no.Spec = t, t
-			e.List = append(e.List, n)
+			if k := W.byKey[n]; k.Listed {
+				e.List = append(e.List, listName(k))
+			}
 		}
 		r := append([]string(nil), m.Runs[n]...)
 		sort.Strings(r)
@@ -235,13 +258,21 @@ func related(a, b string) bool {
 	return a != "" && b != "" && (strings.HasPrefix(a, b) || strings.HasPrefix(b, a))
 }
 
-// compare checks the result class and the observation after operation o (applied in model state pre, predicted
-// state next). Returns "" when everything the property states holds, else (signature, detail).
-func compare(o op, pre, next *mstate, want int, got bool, info string, ob obs) (string, string) {
+type diff struct {
+	sig, txt string
+	answer   bool // about the answer (accepted / refused) only, not about what is stored
+}
+
+// diffsOf compares the result class and the observation after operation o (applied in model state pre) with the
+// predicted state next / answer want. Empty when everything the property states holds.
+func diffsOf(o op, pre, next *mstate, want int, got bool, info string, ob obs) []diff {
 	exp := expected(next)
-	via := viaOf(o)
-	_, aEx := pre.Defs[o.A]
-	_, bEx := pre.Defs[o.B]
+	A, B := addr(o.A), ""
+	if o.K == "rename" {
+		B = addr(o.B)
+	}
+	_, aEx := pre.Defs[A]
+	_, bEx := pre.Defs[B]
 	// precondition class of the operation
 	cls := ""
 	switch o.K {
@@ -258,7 +289,7 @@ func compare(o op, pre, next *mstate, want int, got bool, info string, ob obs) (
 		cls = "text=" + vc + "/dag=" + tf(aEx, "exists", "missing")
 	case "rename":
 		t := tf(bEx, "taken", "free")
-		if o.A == o.B {
+		if A == B {
 			t = "same"
 		}
 		cls = "source=" + tf(aEx, "exists", "missing") + "/target=" + t
@@ -267,13 +298,18 @@ func compare(o op, pre, next *mstate, want int, got bool, info string, ob obs) (
 	case "record", "list":
 		cls = "-"
 	}
-	target := o.A
+	target := A
 	source := ""
 	if o.K == "rename" {
-		target, source = o.B, o.A
-		if o.A == o.B {
+		target, source = B, A
+		if A == B {
 			source = ""
 		}
+	}
+	// did the definition the operation must not overwrite exist?
+	targetEx := aEx
+	if o.K == "rename" {
+		targetEx = bEx
 	}
 	role := func(n string) string {
 		switch {
@@ -281,19 +317,18 @@ func compare(o op, pre, next *mstate, want int, got bool, info string, ob obs) (
 			return "target"
 		case n == source:
 			return "source"
-		case related(n, o.A) || (o.K == "rename" && related(n, o.B)):
+		case related(n, A) || (o.K == "rename" && related(n, B)):
 			return "other(similar-name)"
 		}
 		return "other"
 	}
-	type diff struct{ sig, txt string }
 	var diffs []diff
 	add := func(sig, txt string) {
 		// role-based (generic) classes carry the precondition class of the operation; the named root causes imply it
 		if strings.HasPrefix(sig, "target-") || strings.HasPrefix(sig, "source-") || strings.HasPrefix(sig, "other") {
 			sig += "/" + cls
 		}
-		diffs = append(diffs, diff{sig, txt})
+		diffs = append(diffs, diff{sig: sig, txt: txt})
 	}
 
 	order := []string{}
@@ -320,7 +355,7 @@ func compare(o op, pre, next *mstate, want int, got bool, info string, ob obs) (
 			what := fmt.Sprintf("%s-definition-%s", r, how)
 			// the canonical names of the root causes the property talks about
 			switch {
-			case (o.K == "create" || o.K == "rename") && r == "target" && want == refuse && how != "lost":
+			case (o.K == "create" || o.K == "rename") && r == "target" && want == refuse && targetEx && how != "lost":
 				what = "overwrites-existing-target"
 			case o.K == "save" && r == "target" && want == refuse && aEx:
 				what = "rejected-text-changed-file"
@@ -353,7 +388,7 @@ func compare(o op, pre, next *mstate, want int, got bool, info string, ob obs) (
 			}
 			what := fmt.Sprintf("%s-history-%s", r, how)
 			switch {
-			case o.K == "rename" && want == refuse && bEx && o.A != o.B && (r == "target" || r == "source"):
+			case o.K == "rename" && want == refuse && bEx && A != B && (r == "target" || r == "source"):
 				what = "overwrites-existing-target"
 			case o.K == "rename" && want == accept && r == "target":
 				what = "history-not-available-under-new-name"
@@ -365,6 +400,39 @@ func compare(o op, pre, next *mstate, want int, got bool, info string, ob obs) (
 			add(what, fmt.Sprintf("history of %q: expected runs %v, GetRecentHistory lists %v, GetStatusByRequestID finds %v", n, short(e.Hist), short(g.Hist), short(g.Found)))
 		}
 	}
+	// read-backs under every spelling (spelling search): a spelling reads the definition it addresses, or fails
+	if ob.Reads != nil {
+		for _, s := range W.Spell {
+			rb := ob.Reads[s.Name]
+			e := "absent"
+			if t, ok := next.Defs[s.Key]; ok {
+				e = t
+			}
+			rd := "/read=" + s.Class
+			switch {
+			case rb.Spec == "error":
+				if e != "absent" && s.Class == "bare" {
+					add("readback-spec-fails"+rd, fmt.Sprintf("GetDAGSpec(%q) fails although %q holds %s", s.Name, s.Key, e))
+				}
+			case e == "absent":
+				add("readback-spec-of-missing-definition-returns-a-text"+rd, fmt.Sprintf("GetDAGSpec(%q) returns %s although the definition it addresses (%q) does not exist", s.Name, rb.Spec, s.Key))
+			case rb.Spec != e:
+				add("readback-spec-returns-another-text"+rd, fmt.Sprintf("GetDAGSpec(%q) returns %s, the definition it addresses (%q) holds %s", s.Name, rb.Spec, s.Key, e))
+			}
+			switch {
+			case rb.DetCode != 200:
+				if e != "absent" && s.Class == "bare" {
+					add("readback-details-fails"+rd, fmt.Sprintf("details(%q, tab=spec) answers HTTP %d although %q holds %s", s.Name, rb.DetCode, s.Key, e))
+				}
+			case e == "absent":
+				add("readback-details-of-missing-definition-returns-a-text"+rd, fmt.Sprintf("details(%q, tab=spec) answers 200 with definition %s although the definition it addresses (%q) does not exist", s.Name, rb.DetDef, s.Key))
+			case rb.DetDef != e:
+				add("readback-details-returns-another-text"+rd, fmt.Sprintf("details(%q, tab=spec) returns definition %s, the definition it addresses (%q) holds %s", s.Name, rb.DetDef, s.Key, e))
+			case rb.DetLoc != "" && rb.DetLoc != ob.Locs[s.Key]:
+				add("readback-details-loaded-from-another-file"+rd, fmt.Sprintf("details(%q) were loaded from %s, the definition it addresses is %s", s.Name, rb.DetLoc, ob.Locs[s.Key]))
+			}
+		}
+	}
 	if !eqs(ob.List, exp.List) {
 		add("listing-differs", fmt.Sprintf("listing: expected %q, observed %q", exp.List, ob.List))
 	}
@@ -372,11 +440,17 @@ func compare(o op, pre, next *mstate, want int, got bool, info string, ob obs) (
 		add("listing-reports-errors", fmt.Sprintf("listing errors: %q", ob.Errs))
 	}
 	if len(ob.Extra) > 0 {
-		add("stray-files-in-dags-dir", fmt.Sprintf("unexpected files in the DAGs directory: %q", ob.Extra))
+		add("stray-files-in-dags-dir", fmt.Sprintf("unexpected files: %q", ob.Extra))
 	}
 	if want != either && got != (want == accept) {
-		add(tf(got, "accepted-but-must-be-refused", "refused-but-must-be-accepted"), fmt.Sprintf("result: expected %s, observed %s (%s)", tf(want == accept, "accepted", "refused"), tf(got, "accepted", "refused"), info))
+		diffs = append(diffs, diff{sig: tf(got, "accepted-but-must-be-refused", "refused-but-must-be-accepted"),
+			txt:    fmt.Sprintf("result: expected %s, observed %s (%s)", tf(want == accept, "accepted", "refused"), tf(got, "accepted", "refused"), info),
+			answer: true})
 	}
+	return diffs
+}
+
+func render(o op, diffs []diff, got bool, info string) (string, string) {
 	if len(diffs) == 0 {
 		return "", ""
 	}
@@ -384,8 +458,65 @@ func compare(o op, pre, next *mstate, want int, got bool, info string, ob obs) (
 	for _, d := range diffs {
 		txt = append(txt, d.txt)
 	}
-	return fmt.Sprintf("C18/%s/%s/via=%s", o.K, diffs[0].sig, via),
+	return fmt.Sprintf("C18/%s/%s/via=%s%s", o.K, diffs[0].sig, viaOf(o), spellFacet(o)),
 		fmt.Sprintf("result=%s (%s); %s", tf(got, "accepted", "refused"), info, strings.Join(txt, "; "))
+}
+
+// compare: the strict verdict (every name argument is the bare name): the state after the operation is the
+// predicted one and the answer is the predicted one. Returns "" when everything the property states holds.
+func compare(o op, pre, next *mstate, want int, got bool, info string, ob obs) (string, string) {
+	return render(o, diffsOf(o, pre, next, want, got, info, ob), got, info)
+}
+
+// judge is compare plus the one thing the property is silent about: whether a name argument that is NOT the bare
+// name has to be accepted at all. For such an operation
+//   - answered "accepted": exactly as strict as compare;
+//   - answered "refused": conforms if nothing changed, and also if everything is as after the accepted operation
+//     (definition, history, read-backs of ALL definitions; only the answer is then not judged - counted in `tolerated`);
+//     anything in between (half an effect) is a violation.
+const (
+	tolRefusedUnchanged = "unusual spelling: refused, nothing changed"
+	tolRefusedPerformed = "unusual spelling: answered refused, effect exactly that of the accepted operation"
+)
+
+func judge(o op, pre, next *mstate, want int, got bool, info string, ob obs) (sig, detail, tolerated string) {
+	dN := diffsOf(o, pre, next, want, got, info, ob)
+	if len(dN) == 0 {
+		return "", "", ""
+	}
+	if canonical(o) || got {
+		s, d := render(o, dN, got, info)
+		return s, d, ""
+	}
+	var stateN []diff
+	for _, d := range dN {
+		if !d.answer {
+			stateN = append(stateN, d)
+		}
+	}
+	if len(stateN) == 0 {
+		if want == accept {
+			if next.key() != pre.key() || next.NRec != pre.NRec {
+				return "", "", tolRefusedPerformed
+			}
+			return "", "", tolRefusedUnchanged
+		}
+		return "", "", ""
+	}
+	w2 := want
+	if w2 == accept {
+		w2 = refuse
+	}
+	dP := diffsOf(o, pre, pre, w2, got, info, ob)
+	if len(dP) == 0 {
+		return "", "", tolRefusedUnchanged
+	}
+	pick := stateN
+	if len(dP) < len(stateN) {
+		pick = dP
+	}
+	s, d := render(o, pick, got, info)
+	return s, d + " [neither the state before the operation nor the state after the accepted operation]", ""
 }
 
 func tf(b bool, t, f string) string {
